@@ -466,6 +466,13 @@ class Run(RunBase):
             if op.get("time_begin") is not None:
                 rnd.draw_params.time_begin = op["time_begin"]
                 rnd.draw_params.time_end = op["time_begin"] + op.get("span", 2)
+            for path, val in (op.get("flags") or {}).items():
+                obj = rnd.draw_params
+                parts = path.split(".")
+                for part in parts[:-1]:
+                    obj = getattr(obj, part)
+                setattr(obj, parts[-1], val)
+                self.probe("render-flag:" + parts[-1])
             if op["what"] in ("scenario", "both"):
                 self.sc.draw(rnd)
             if op["what"] in ("pps", "both"):
@@ -580,6 +587,8 @@ def _inspector(rng, run, cfg):
             n_render += 1
             op = {"op": k, "what": rng.pick(["scenario", "both", "pps", "obstacles"]),
                   "time_begin": rng.choice([None, 0, 1, 3, 50])}
+            if rng.chance(0.7):
+                op["flags"] = {f: rng.chance(0.7) for f in rng.subset(RENDER_FLAGS, 0.25, at_least=1)}
         elif k == "export" and n_exp < cfg["max_export"]:
             n_exp += 1
             fmt = rng.pick(["xml", "pb"])
@@ -598,6 +607,22 @@ def _inspector(rng, run, cfg):
         yield op
 
 
+RENDER_FLAGS = [
+    "lanelet_network.intersection.draw_intersections", "lanelet_network.intersection.draw_successors",
+    "lanelet_network.intersection.draw_incoming_lanelets", "lanelet_network.intersection.draw_crossings",
+    "lanelet_network.intersection.show_label", "lanelet_network.lanelet.draw_border_vertices",
+    "lanelet_network.lanelet.show_label", "lanelet_network.lanelet.draw_stop_line",
+    "lanelet_network.lanelet.draw_line_markings", "lanelet_network.lanelet.draw_center_bound",
+    "lanelet_network.lanelet.draw_start_and_direction", "lanelet_network.lanelet.fill_lanelet",
+    "lanelet_network.lanelet.unique_colors", "lanelet_network.traffic_sign.draw_traffic_signs",
+    "lanelet_network.traffic_sign.show_label", "lanelet_network.traffic_light.draw_traffic_lights",
+    "dynamic_obstacle.draw_icon", "dynamic_obstacle.show_label", "dynamic_obstacle.draw_signals",
+    "dynamic_obstacle.draw_initial_state", "dynamic_obstacle.draw_direction", "dynamic_obstacle.draw_bounding_box",
+    "dynamic_obstacle.trajectory.draw_trajectory", "dynamic_obstacle.trajectory.draw_continuous",
+    "dynamic_obstacle.occupancy.draw_occupancies", "dynamic_obstacle.history.draw_history",
+    "static_obstacle.occupancy.draw_occupancies", "planning_problem_set.planning_problem.goal_region.draw_occupancies",
+]
+
 OP_KINDS = ["q_obstacle", "q_scenario", "q_network", "goal", "compare", "copy", "render", "export"]
 
 
@@ -609,7 +634,7 @@ class C18(Property):
                        "feature:defaultdict-goal-table", "feature:pm-trajectory", "feature:uncertain-state",
                        "feature:shape-group", "feature:set-based", "export-compared-xml", "export-compared-pb",
                        "cell:q_obstaclexcustom-state-without-orientation", "cell:exportxdefaultdict-goal-table",
-                       "cell:renderxcustom-state-without-orientation", "op-raised:goal", "op-raised:export"]
+                       "cell:renderxcustom-state-without-orientation", "op-raised:goal", "op-raised:export", "render-flag:draw_intersections", "render-flag:draw_icon"]
     assumptions = [
         "the snapshot reads public accessors only and never touches derived data whose computation is itself one of "
         "the side effects hunted (occupancy_set, distance, shapely_object)",
@@ -624,7 +649,7 @@ class C18(Property):
         return {"steps": rng.randint(4, 22), "n_inspectors": rng.randint(1, 3),
                 "op_kinds": sorted(rng.subset(OP_KINDS, 0.65, at_least=2)),
                 "source": rng.weighted(["direct", "xml", "pb"], [2, 1, 1]), "assignment": rng.chance(0.4),
-                "p_bad": rng.pick([0.0, 0.1, 0.25]), "max_render": rng.pick([0, 1, 2]),
+                "p_bad": rng.pick([0.0, 0.1, 0.25]), "max_render": rng.pick([0, 1, 2, 3]),
                 "max_export": rng.pick([1, 3, 6]), "p_export_check": rng.pick([0.0, 0.15, 0.4])}
 
     def gen_universe(self, rng, cfg):
@@ -636,7 +661,7 @@ class C18(Property):
             role = rng.weighted(["static", "dynamic", "dynamic_nopred", "dynamic_set", "env", "phantom"],
                                 [2, 6, 1, 1.5, 1, 1])
             kinds = ("rect", "circ", "poly", "group") if rng.chance(0.2) else ("rect", "circ", "poly")
-            ob = gen.gen_obstacle(rng, ids.take(), net, role=role, shape_kinds=kinds)
+            ob = gen.gen_obstacle(rng, ids.take(), net, role=role, shape_kinds=kinds, interval_steps=0.3)
             if ob.get("shape", {}).get("t") == "group":
                 features.add("shape-group")
             if role in ("dynamic_set", "phantom"):
